@@ -25,9 +25,7 @@ use futures::{
 };
 use std::{collections::VecDeque, sync::Arc, time::SystemTime};
 
-use super::error::{InternalError, QuotaExceeded};
-
-const ERRMSG_HANDLE_DROPPED: &str = "Unable to complete async operation.";
+use super::error::QuotaExceeded;
 
 struct Session {
     awaiting_ack: VecDeque<(usize, oneshot::Sender<Result<RxPacket, MqttError>>)>,
@@ -116,22 +114,19 @@ where
         match msg {
             ContextMessage::FireAndForget(msg) => {
                 if let Err(err) = Self::validate_packet_size(connection, msg.packet.as_ref()) {
-                    msg.response_channel
-                        .send(Err(err))
-                        .map_err(|_| InternalError::from(ERRMSG_HANDLE_DROPPED))?;
+                    // The caller may have dropped the operation's future: that is not an error.
+                    let _ = msg.response_channel.send(Err(err));
                     return Ok(());
                 }
 
                 tx.write(msg.packet.freeze().as_ref()).await?;
-                msg.response_channel
-                    .send(Ok(()))
-                    .map_err(|_| InternalError::from(ERRMSG_HANDLE_DROPPED))?;
+                // The caller may have dropped the operation's future: that is not an error.
+                let _ = msg.response_channel.send(Ok(()));
             }
             ContextMessage::AwaitAck(mut msg) => {
                 if let Err(err) = Self::validate_packet_size(connection, msg.packet.as_ref()) {
-                    msg.response_channel
-                        .send(Err(err))
-                        .map_err(|_| InternalError::from(ERRMSG_HANDLE_DROPPED))?;
+                    // The caller may have dropped the operation's future: that is not an error.
+                    let _ = msg.response_channel.send(Err(err));
                     return Ok(());
                 }
 
@@ -139,9 +134,8 @@ where
 
                 if packet_id == PublishTx::PACKET_ID {
                     if connection.send_quota == 0 {
-                        msg.response_channel
-                            .send(Err(QuotaExceeded.into()))
-                            .map_err(|_| InternalError::from(ERRMSG_HANDLE_DROPPED))?;
+                        // The caller may have dropped the operation's future: that is not an error.
+                        let _ = msg.response_channel.send(Err(QuotaExceeded.into()));
                         return Ok(());
                     }
 
@@ -177,9 +171,8 @@ where
             }
             ContextMessage::Subscribe(msg) => {
                 if let Err(err) = Self::validate_packet_size(connection, msg.packet.as_ref()) {
-                    msg.response_channel
-                        .send(Err(err))
-                        .map_err(|_| InternalError::from(ERRMSG_HANDLE_DROPPED))?;
+                    // The caller may have dropped the operation's future: that is not an error.
+                    let _ = msg.response_channel.send(Err(err));
                     return Ok(());
                 }
 
@@ -281,9 +274,8 @@ where
                     utils::linear_search_by_key(&session.awaiting_ack, action_id)
                         .and_then(|pos| session.awaiting_ack.remove(pos))
                 {
-                    sender
-                        .send(Ok(rx_packet))
-                        .map_err(|_| InternalError::from(ERRMSG_HANDLE_DROPPED))?;
+                    // The caller may have dropped the operation's future: that is not an error.
+                    let _ = sender.send(Ok(rx_packet));
                 }
             }
             RxPacket::Pubcomp(pubcomp) => {
@@ -301,9 +293,8 @@ where
                     utils::linear_search_by_key(&session.awaiting_ack, action_id)
                         .and_then(|pos| session.awaiting_ack.remove(pos))
                 {
-                    sender
-                        .send(Ok(rx_packet))
-                        .map_err(|_| InternalError::from(ERRMSG_HANDLE_DROPPED))?;
+                    // The caller may have dropped the operation's future: that is not an error.
+                    let _ = sender.send(Ok(rx_packet));
                 }
             }
             RxPacket::Pubrel(pubrel) => {
@@ -317,9 +308,8 @@ where
                     utils::linear_search_by_key(&session.awaiting_ack, action_id)
                         .and_then(|pos| session.awaiting_ack.remove(pos))
                 {
-                    sender
-                        .send(Ok(other))
-                        .map_err(|_| InternalError::from(ERRMSG_HANDLE_DROPPED))?;
+                    // The caller may have dropped the operation's future: that is not an error.
+                    let _ = sender.send(Ok(other));
                 }
             }
         }
